@@ -541,3 +541,56 @@ def features(prog):
     if len(prog["modules"]) > 1:
         f.add("multi-module")
     return f
+
+
+# Attribute decoration ------------------------------------------------------------------------------
+ABI_PATTERNS = ["pre_{0}", "{0}_suf", "ns_{0}_v1", "lib2_{0}", "{0}"]
+CFG_ATOMS = ["*", "c", "cpp", "js", "dart", "kotlin", "nanobind", "demo_gen", "not(c)", "not(js)", "any(cpp, js)",
+             "any(dart, kotlin, nanobind)", "all(not(c), not(kotlin))", "not(any(js, dart))", "supports = option",
+             "not(supports = callbacks)", "supports = namespacing"]
+
+
+@st.composite
+def decorate(draw, prog, abi=True, rename=True, disable=True, density=4):
+    """randomly place abi_rename / rename / disable attributes; returns the list of placements (for labels)"""
+    placed = []
+    counter = [0]
+
+    def maybe():
+        return draw(st.integers(0, density)) == 0
+
+    def fresh(prefix):
+        counter[0] += 1
+        return "%s%d" % (prefix, counter[0])
+
+    for mod in prog["modules"]:
+        if abi and maybe():
+            mod["attrs"].append('#[diplomat::abi_rename = "%s"]' % draw(st.sampled_from(ABI_PATTERNS[:4])))
+            placed.append("abi:module")
+        for it in mod["items"]:
+            if abi and it["kind"] == "opaque" and maybe():
+                pat = draw(st.sampled_from(ABI_PATTERNS[:4] + ["dtorfixed_%s" % it["name"]]))
+                it["attrs"].append('#[diplomat::abi_rename = "%s"]' % pat)
+                placed.append("abi:type" + ("-nopattern" if "{0}" not in pat else ""))
+            if rename and maybe():
+                it["attrs"].append('#[diplomat::attr(%s, rename = "%s")]' % (draw(st.sampled_from(CFG_ATOMS)), fresh("Renamed" + it["name"])))
+                placed.append("rename:type")
+            for impl in it.get("impls", []):
+                if abi and maybe():
+                    impl["attrs"].append('#[diplomat::abi_rename = "%s"]' % draw(st.sampled_from(ABI_PATTERNS[:4])))
+                    placed.append("abi:impl")
+                if disable and maybe() and maybe():
+                    impl["attrs"].append("#[diplomat::attr(%s, disable)]" % draw(st.sampled_from(CFG_ATOMS)))
+                    placed.append("disable:impl")
+                for m in impl["methods"]:
+                    if abi and maybe():
+                        pat = draw(st.sampled_from(ABI_PATTERNS[:4] + [fresh("fixed_sym_")]))
+                        m["attrs"].append('#[diplomat::abi_rename = "%s"]' % pat)
+                        placed.append("abi:method" + ("-nopattern" if "{0}" not in pat else ""))
+                    if rename and maybe():
+                        m["attrs"].append('#[diplomat::attr(%s, rename = "%s")]' % (draw(st.sampled_from(CFG_ATOMS)), fresh("renamed_" + m["name"])))
+                        placed.append("rename:method")
+                    if disable and maybe():
+                        m["attrs"].append("#[diplomat::attr(%s, disable)]" % draw(st.sampled_from(CFG_ATOMS)))
+                        placed.append("disable:method")
+    return placed
